@@ -4,12 +4,18 @@ Line protocol for K_C09. A name is its code points in decimal joined by `.` (`-`
 a directory is names joined by `/` (`~` = the download directory itself).
 
   `fs <e>*`  with `e = d:<dir>:<name>` | `f:<dir>:<name>`   reset: directory content, no downloads → `ok`
+             (`f` = anything that is not a directory: regular file or (dangling) symbolic link)
   `chain <S> <remote>`   `S` over `D K N` (`-` = empty chain); `chain_strategies` on the current content
-                         → `ok <dir> <name>` | `err noName` | `err emptyName`
-  `start <id> <S> <remote>`  a download chooses and claims its path
-                         → `chosen <dir> <name>` | `err …` | `oserror <dir> <name>` | `busy`
-  `finish <id>`          → `done`
-  `dump`                 → `active <id>:<dir>:<name>,… fs <entry>,…` (both sorted)
+                         → `ok <dir> <name> <final>` | `err noName` | `err emptyName`
+                         (`<final>` = the joined path string below the download directory, as a name;
+                          `ABS` when a component is absolute)
+  `start <id> <S> <remote> <fault>`  the download task runs up to its first suspension;
+                         `<fault>`: `-` none, `m` os.makedirs raises, `o` the claiming open() raises
+                         → `chosen <dir> <name> <final>` | `resumed <dir> <name> <final>` | `err …`
+                           | `oserror <dir> <name>` | `busy`
+  `finish <id>`          the task ends, complete → `done`
+  `cut <id>`             the task ends, connection lost → `done`
+  `dump`                 → `held <id>:<dir>:<name>:<r|c|b>,… fs <entry>,…` (both sorted)
 -/
 open AioslskVerif.Naming
 
@@ -48,40 +54,58 @@ def encErr : Err → String
   | .noName => "err noName"
   | .emptyName => "err emptyName"
 
+def encFinal (d : Path) (n : Name) : String :=
+  match finalPath d n with
+  | some s => encName s
+  | none => "ABS"
+
+def decFault (t : String) : Option Fault :=
+  if t = "-" then some .none else if t = "m" then some .makedirs else if t = "o" then some .open else none
+
+def encStatus : Status → String
+  | .running => "r"
+  | .complete => "c"
+  | .broken => "b"
+
 def sorted (l : List String) : List String := (l.toArray.qsort (· < ·)).toList
 
 def handle (s : Sys) (line : String) : Sys × String :=
   match (line.splitOn " ").filter (· ≠ "") with
   | "fs" :: es =>
     match es.mapM decEntry with
-    | some es => ({ fs := es, active := [] }, "ok")
+    | some es => ({ fs := es, dls := [] }, "ok")
     | none => (s, "bad-op")
   | ["chain", ss, r] =>
     match decStrategies ss, decName r with
     | some ss, some r =>
       match chain s.fs ss r with
-      | .ok (d, n) => (s, s!"ok {encPath d} {encName n}")
+      | .ok (d, n) => (s, s!"ok {encPath d} {encName n} {encFinal d n}")
       | .error e => (s, encErr e)
     | _, _ => (s, "bad-op")
-  | ["start", id, ss, r] =>
-    match id.toNat?, decStrategies ss, decName r with
-    | some id, some ss, some r =>
-      let res := step ss s (.start id r)
+  | ["start", id, ss, r, f] =>
+    match id.toNat?, decStrategies ss, decName r, decFault f with
+    | some id, some ss, some r, some f =>
+      let res := step ss s (.start id r f)
       (res.1, match res.2 with
-        | .chosen d n => s!"chosen {encPath d} {encName n}"
+        | .chosen d n => s!"chosen {encPath d} {encName n} {encFinal d n}"
+        | .resumed d n => s!"resumed {encPath d} {encName n} {encFinal d n}"
         | .refused e => encErr e
         | .oserror d n => s!"oserror {encPath d} {encName n}"
         | .busy => "busy"
         | .done => "done")
-    | _, _, _ => (s, "bad-op")
+    | _, _, _, _ => (s, "bad-op")
   | ["finish", id] =>
     match id.toNat? with
     | some id => ((step [] s (.finish id)).1, "done")
     | none => (s, "bad-op")
+  | ["cut", id] =>
+    match id.toNat? with
+    | some id => ((step [] s (.cut id)).1, "done")
+    | none => (s, "bad-op")
   | ["dump"] =>
-    let act := sorted (s.active.map (fun a => s!"{a.id}:{encPath a.dir}:{encName a.name}"))
+    let held := sorted (s.dls.map (fun a => s!"{a.id}:{encPath a.dir}:{encName a.name}:{encStatus a.status}"))
     let ents := sorted (s.fs.map encEntry)
-    (s, "active " ++ ",".intercalate act ++ " fs " ++ ",".intercalate ents)
+    (s, "held " ++ ",".intercalate held ++ " fs " ++ ",".intercalate ents)
   | _ => (s, "bad-op")
 
 partial def loop (h : IO.FS.Stream) (s : Sys) : IO Unit := do
@@ -92,4 +116,4 @@ partial def loop (h : IO.FS.Stream) (s : Sys) : IO Unit := do
   loop h s'
 
 def main : IO Unit := do
-  loop (← IO.getStdin) { fs := [], active := [] }
+  loop (← IO.getStdin) { fs := [], dls := [] }
